@@ -121,7 +121,6 @@ func GenCase(t *rapid.T) Case {
 		maxSize = 2 << 20
 	}
 	ns := rapid.IntRange(1, 6).Draw(t, "nstreams")
-	budgetS2C := 400 << 10 // spec-driven clients: stay far below the enforced (Config) windows, see C12 finding
 	for i := 0; i < ns; i++ {
 		s := StreamSpec{Init: rapid.SampledFrom([]string{"c", "s"}).Draw(t, "init"), Uni: rapid.Bool().Draw(t, "uni")}
 		s.Size = rapid.OneOf(rapid.IntRange(0, 3000), rapid.IntRange(0, 40000), rapid.IntRange(0, maxSize)).Draw(t, "size")
@@ -136,31 +135,10 @@ func GenCase(t *rapid.T) Case {
 		if rapid.IntRange(0, 9).Draw(t, "cancel") == 0 && s.Size > 10 {
 			s.CancelAt = rapid.IntRange(1, s.Size-1).Draw(t, "cancel_at")
 		}
-		if strings.HasPrefix(c.Client, "spec:") {
-			s2c := s.RevSize
-			if s.Init == "s" {
-				s2c = s.Size
-			}
-			if s2c > budgetS2C {
-				vf.U(GenUnit).Excluded("C12/flow-control/window")
-				if s.Init == "s" {
-					s.Size = budgetS2C
-				} else {
-					s.RevSize = budgetS2C
-				}
-				s2c = budgetS2C
-			}
-			budgetS2C -= s2c
-		}
 		c.Streams = append(c.Streams, s)
 	}
 	c.Datagrams = rapid.SampledFrom([]int{0, 0, 3, 12}).Draw(t, "dgrams")
 	c.WinKB = rapid.SampledFrom([]int{0, 0, 0, 2, 8, 32}).Draw(t, "win")
-	if c.WinKB > 0 && strings.HasPrefix(c.Client, "spec:") {
-		// a spec-driven client advertises the spec's windows but enforces Config's (C12 finding): keep Config at its defaults
-		vf.U(GenUnit).Excluded("C12/flow-control/window")
-		c.WinKB = 0
-	}
 	c.Faults = genFaults(t, 8)
 	if rapid.IntRange(0, 3).Draw(t, "lossy") == 0 {
 		from := rapid.IntRange(0, 1500).Draw(t, "loss_from")
